@@ -27,6 +27,15 @@ def _mk(kind, p, d):
         pt = lib.use_point_elsewhere(lib.P(p))
         return Line(pt, lib.P(X.add(p, d)))
     if kind == 'Plane':
+        # alternate between point-normal, general form and point + two spanning vectors (decided by the scene, not at random)
+        sel = (abs(int(d[0])) + 2 * abs(int(d[1])) + abs(int(d[2]))) % 3
+        if sel == 1:
+            return Plane(float(d[0]), float(d[1]), float(d[2]), float(X.dot(d, p)))
+        if sel == 2:
+            e = next(e for e in ((1, 0, 0), (0, 1, 0), (0, 0, 1)) if not X.is_zero(X.cross(d, e)))
+            u = X.cross(d, e)
+            w = X.cross(d, u)
+            return Plane(lib.P(p), lib.V(X.scal(2, u)), lib.V(X.add(w, u)))
         return Plane(lib.P(p), lib.V(d))
     return lib.V(d)
 
